@@ -24,7 +24,7 @@ LEVEL_NOTE = 'Crashes are observable only at actor calls and Python line boundar
 TECHNIQUE = 'deterministic simulation: crash injection at event/line indices, recovery from a simulated durable store'
 DESIGN_REF = 'DESIGN.md 4.5, 7.2'
 BUDGET = {
-    "quick": {"plans": 1200, "wall": 90, "chunk": 4},
+    "quick": {"plans": 2000, "wall": 90, "chunk": 4},
     "thorough": {"plans": 12000, "wall": 900, "chunk": 8},
 }
 RULE = (
